@@ -21,6 +21,7 @@ import (
 	"strconv"
 	"sync"
 	"testing"
+	"time"
 
 	"github.com/jackc/pgproto3/v2"
 	dbi "github.com/tinode/chat/server/db"
@@ -44,21 +45,54 @@ func c18CloseAdapter(a dbi.Adapter, leaked bool) {
 type c18Srv struct {
 	core *c18Core
 	dir  string
+	sock string
+	port int
 	l    net.Listener
 	mu   sync.Mutex
 	cs   map[net.Conn]struct{}
 	wg   sync.WaitGroup
 }
 
+// One private temp dir per test process; every run listens on a fresh socket inside it
+// (libpq convention: <dir>/.s.PGSQL.<port>, the "port" only selects the socket file).
+var c18Tmp struct {
+	sync.Mutex
+	dir string
+	n   int
+}
+
+func c18NextSock() (string, int, error) {
+	c18Tmp.Lock()
+	defer c18Tmp.Unlock()
+	if c18Tmp.dir == "" {
+		d, err := os.MkdirTemp("", "c18pg")
+		if err != nil {
+			return "", 0, err
+		}
+		c18Tmp.dir = d
+	}
+	c18Tmp.n++
+	return c18Tmp.dir, 1 + c18Tmp.n%60000, nil
+}
+
+func c18Cleanup() {
+	c18Tmp.Lock()
+	defer c18Tmp.Unlock()
+	if c18Tmp.dir != "" {
+		os.RemoveAll(c18Tmp.dir)
+		c18Tmp.dir = ""
+	}
+}
+
 func c18StartServer() (*c18Srv, error) {
-	dir, err := os.MkdirTemp("", "c18pg")
+	dir, port, err := c18NextSock()
 	if err != nil {
 		return nil, err
 	}
-	s := &c18Srv{core: &c18Core{pg: true}, dir: dir, cs: map[net.Conn]struct{}{}}
-	s.l, err = net.Listen("unix", filepath.Join(dir, ".s.PGSQL.5432"))
+	s := &c18Srv{core: &c18Core{pg: true}, dir: dir, port: port, sock: filepath.Join(dir, ".s.PGSQL."+strconv.Itoa(port)), cs: map[net.Conn]struct{}{}}
+	os.Remove(s.sock)
+	s.l, err = net.Listen("unix", s.sock)
 	if err != nil {
-		os.RemoveAll(dir)
 		return nil, err
 	}
 	s.wg.Add(1)
@@ -85,8 +119,12 @@ func c18StartServer() (*c18Srv, error) {
 	return s, nil
 }
 
-func (s *c18Srv) config() string {
-	return fmt.Sprintf(`{"dsn":"postgresql://u:p@/tinode?host=%s&sslmode=disable&prefer_simple_protocol=true"}`, s.dir)
+func (s *c18Srv) config(timeout bool) string {
+	to := ""
+	if timeout {
+		to = `,"sql_timeout":1`
+	}
+	return fmt.Sprintf(`{"dsn":"postgresql://u:p@/tinode?host=%s&port=%d&sslmode=disable&prefer_simple_protocol=true"%s}`, s.dir, s.port, to)
 }
 
 func (s *c18Srv) stop() {
@@ -97,7 +135,7 @@ func (s *c18Srv) stop() {
 	}
 	s.mu.Unlock()
 	s.wg.Wait()
-	os.RemoveAll(s.dir)
+	os.Remove(s.sock)
 }
 
 func (s *c18Srv) serve(c net.Conn) {
@@ -141,6 +179,9 @@ func (s *c18Srv) serve(c net.Conn) {
 			return
 		case *pgproto3.Query:
 			rep := s.core.stmt(st, q.String, 0)
+			if rep.Stall {
+				time.Sleep(c18StallFor)
+			}
 			rfq := &pgproto3.ReadyForQuery{TxStatus: rep.Tx}
 			switch rep.Res {
 			case "drop":
@@ -196,6 +237,9 @@ func (s *c18Srv) serve(c net.Conn) {
 				}
 				send(&pgproto3.CommandComplete{CommandTag: []byte(tag)}, rfq)
 			}
+			if rep.Stall {
+				s.core.stallEnd()
+			}
 		default:
 			send(&pgproto3.ErrorResponse{Severity: "ERROR", Code: "0A000", Message: fmt.Sprintf("c18 fake server: %T not supported (simple protocol only)", m)},
 				&pgproto3.ReadyForQuery{TxStatus: st.tx})
@@ -216,7 +260,7 @@ func c18Boot() {
 			panic(err)
 		}
 		defer srv.stop()
-		cfg := fmt.Sprintf(`{"uid_key":"la6YsO+bNX/+XIkOqc5Svw==","use_adapter":"postgres","adapters":{"postgres":%s}}`, srv.config())
+		cfg := fmt.Sprintf(`{"uid_key":"la6YsO+bNX/+XIkOqc5Svw==","use_adapter":"postgres","adapters":{"postgres":%s}}`, srv.config(false))
 		if err := store.Store.Open(1, []byte(cfg)); err != nil {
 			panic("c18 boot: store.Open: " + err.Error())
 		}
@@ -224,8 +268,7 @@ func c18Boot() {
 	})
 }
 
-func c18Cleanup() {}
-
 func TestC18Postgres(tt *testing.T)     { c18RapidUnit(tt, "TestC18Postgres") }
 func TestC18PostgresEnum(tt *testing.T) { c18EnumUnit(tt, "TestC18PostgresEnum") }
+func TestC18PostgresStall(tt *testing.T) { c18StallUnit(tt, "TestC18PostgresStall") }
 func TestC18PostgresShow(tt *testing.T) { c18ShowUnit(tt) }
